@@ -311,24 +311,21 @@ Definition upper_idem_ok (upper_char : Z -> str) : Prop :=
 (* ---- typed constructors and checks for the generated correspondence cases ------------------------- *)
 Definition mk_tables (a : list (str * str)) (b : list Z) (c d : list (Z * str)) (e : list Z) : tables :=
   (a, b, c, d, e).
-Definition case_sanitize (t : tables) (i : option str) (prefix : str) (cap : bool) (out : str) :=
-  (t, i, prefix, cap, out).
-Definition case_suffix (t : tables) (base : str) (avoid : list str) (k : Z) (out : str) :=
-  (t, base, avoid, k, out).
-Definition case_gen (t : tables) (avoid : list str) (out : str) := (t, avoid, out).
-Definition case_pick (t : tables) (i : option str) (avoid : list str) (out : str) := (t, i, avoid, out).
-Definition case_list (t : tables) (i : list (option str)) (avoid : list str) (out : list str) :=
-  (t, i, avoid, out).
+Inductive ccase : Type :=
+| case_sanitize (t : tables) (i : option str) (prefix : str) (cap : bool) (out : str)
+| case_suffix (t : tables) (base : str) (avoid : list str) (k : Z) (out : str)
+| case_gen (t : tables) (avoid : list str) (out : str)
+| case_table (t : tables) (i : option str) (avoid : list str) (out : str)
+| case_col (t : tables) (i : option str) (avoid : list str) (out : str)
+| case_list (t : tables) (i : list (option str)) (avoid : list str) (out : list str).
 
-Definition check_sanitize (kw : list str) (c : tables * option str * str * bool * str) : bool :=
-  let '(t, i, prefix, cap, out) := c in opt_str_eqb (run_sanitize t kw i prefix cap) out.
-Definition check_suffix (c : tables * str * list str * Z * str) : bool :=
-  let '(t, base, avoid, k, out) := c in opt_str_eqb (run_add_suffix t base avoid k) out.
-Definition check_gen (c : tables * list str * str) : bool :=
-  let '(t, avoid, out) := c in opt_str_eqb (run_gen_ident t avoid) out.
-Definition check_table (kw : list str) (c : tables * option str * list str * str) : bool :=
-  let '(t, i, avoid, out) := c in opt_str_eqb (run_pick_table t kw i avoid) out.
-Definition check_col (kw : list str) (c : tables * option str * list str * str) : bool :=
-  let '(t, i, avoid, out) := c in opt_str_eqb (run_pick_col t kw i avoid) out.
-Definition check_list (kw : list str) (c : tables * list (option str) * list str * list str) : bool :=
-  let '(t, i, avoid, out) := c in opt_strs_eqb (run_pick_list t kw i avoid) out.
+(* does the model return what the implementation returned? *)
+Definition check_case (kw : list str) (c : ccase) : bool :=
+  match c with
+  | case_sanitize t i prefix cap out => opt_str_eqb (run_sanitize t kw i prefix cap) out
+  | case_suffix t base avoid k out => opt_str_eqb (run_add_suffix t base avoid k) out
+  | case_gen t avoid out => opt_str_eqb (run_gen_ident t avoid) out
+  | case_table t i avoid out => opt_str_eqb (run_pick_table t kw i avoid) out
+  | case_col t i avoid out => opt_str_eqb (run_pick_col t kw i avoid) out
+  | case_list t i avoid out => opt_strs_eqb (run_pick_list t kw i avoid) out
+  end.
